@@ -23,21 +23,22 @@ type C01Case struct {
 
 func c01Opt() ragen.GenOpt {
 	o := ragen.GenOpt{
-		Rx:           ragen.RxOpt{Stress: 8, MaxDepth: 2, Words: 35},
-		MaxDepth:     3,
-		MaxItems:     7,
-		Flags:        true,
-		PrefixSuffix: true,
-		Defs:         true,
-		DefsInPS:     true,
-		Includes:     true,
-		Excepts:      true,
-		Pairs:        true,
-		IncludePS:    true,
-		IncludeDefs:  true,
-		Cmdline:      true,
-		StoreLoad:    true,
-		TrailWS:      true,
+		Rx:            ragen.RxOpt{Stress: 8, MaxDepth: 2, Words: 35},
+		MaxDepth:      3,
+		MaxItems:      7,
+		Flags:         true,
+		PrefixSuffix:  true,
+		Defs:          true,
+		DefsInPS:      true,
+		Includes:      true,
+		Excepts:       true,
+		Pairs:         true,
+		IncludePS:     true,
+		IncludeDefs:   true,
+		Cmdline:       true,
+		StoreLoad:     true,
+		TrailWS:       true,
+		NestInCmdline: true,
 	}
 	if thorough() {
 		o.MaxDepth, o.MaxItems = 4, 10
